@@ -106,7 +106,7 @@ func main() {
 			} else {
 				writeLine(sw, []int64{0})
 			}
-			for i := 0; i < st.Ops; i++ {
+			for i := 0; i < st.Ops || (g.Pending() > 0 && i < st.Ops+200); i++ {
 				line := g.NextOp()
 				writeLine(sw, line)
 				if os.Getenv("ARKH_TRACE") != "" {
@@ -188,7 +188,7 @@ func main() {
 				a, b := sim.NewSim(cfg), sim.NewSim(cfg)
 				g := sim.NewGen(rng, a, stS)
 				writeLine(sw, cfg.Line())
-				for i := 0; i < stS.Ops; i++ {
+				for i := 0; i < stS.Ops || (g.Pending() > 0 && i < stS.Ops+200); i++ {
 					line := g.NextOp()
 					writeLine(sw, line)
 					writeLine(aw, a.Step(line))
